@@ -296,3 +296,5 @@ func init() {
 		return nil
 	}
 }
+
+func timeAfter(sec int) <-chan time.Time { return time.After(time.Duration(sec) * time.Second) }
